@@ -252,10 +252,23 @@ func pathOf(fam string) []string {
 
 // accepting makes an extension on parent (a built-in name or "") whose predicate accepts x.
 func (g *extGen) accepting(parent string, x []byte) *model.Ext {
+	return g.acceptingOn(parent, nil, x)
+}
+
+// acceptingOn hangs the new extension on an earlier extension when on != nil.
+func (g *extGen) acceptingOn(parent string, on *model.Ext, x []byte) *model.Ext {
 	id := g.next
 	g.next++
 	e := &model.Ext{ID: id, ParentExt: -1, Arr: -1, Parent: parent,
 		Mime: fmt.Sprintf("x-verif/e%d", id), Extension: fmt.Sprintf(".e%d", id)}
+	if on != nil {
+		names := on.Names()
+		e.Parent, e.ParentExt = names[g.r.Intn(len(names))], on.ID
+		if g.parentName == nil {
+			g.dupName, g.parentName = map[string]bool{}, map[string]bool{}
+		}
+		g.parentName[e.Parent] = true
+	}
 	switch g.r.Intn(4) {
 	case 0:
 	case 1:
